@@ -44,7 +44,10 @@ BinFails(e) ==
               ELSE LET x == ExactBin(n, a, b) IN
                    IF ~x[1] THEN ""
                    ELSE IF n \in CmpNames \/ a.t = "Boolean" THEN F(e.r.k = "bool" /\ e.r.n = x[2], "the operator does not return what the arithmetic of the first operand's type gives")
-                   ELSE F(Exact(e.r) /\ Num8(e.r) = x[2], "the operator does not return what the arithmetic of the first operand's type gives")))
+                   ELSE F(Exact(e.r) /\ Num8(e.r) = x[2], "the operator does not return what the arithmetic of the first operand's type gives"))
+          \o (IF "host" \in DOMAIN e
+              THEN F(e.r.t = e.host.t /\ e.r.s = e.host.s, "the operator does not return what the host's own operator on the first operand's native type returns")
+              ELSE ""))
 
 UnFails(e) ==
   LET a == e.a IN
